@@ -288,10 +288,60 @@ def _pendroot_rule(chk, prog):
     chk.floor(rule, 6, n)
 
 
+def _asyncroot_rule(chk, prog):
+    """A fiber waiting on a stream keeps the stream alive through one root per registration: janet_async_start_fiber
+    takes it when it installs fiber->ev_callback, janet_async_end drops it when it clears the callback.  The two
+    functions run once each per wait, so the root must be taken on EVERY path that installs the callback and released
+    on every path that clears it - a root that is skipped when the stream already has a listener is released twice
+    (first completion frees the stream under the second waiter)."""
+    rule = "C20-ASYNCROOT"
+    chk.rule(rule, "the stream root is taken on every path that installs fiber->ev_callback and dropped on every path that clears it")
+    tu = prog.tus["ev.c"]
+    n = 0
+    for fname, token_set, action in (("janet_async_start_fiber", True, "janet_gcroot"), ("janet_async_end", False, "janet_gcunroot")):
+        fn = tu.funcs.get(fname)
+        if fn is None:
+            raise AnalysisBroken("%s not found" % fname)
+        chk.analysed(fn)
+
+        def transfer(st, x, token_set=token_set, action=action):
+            if x.k == "asg" and x.op == "=" and x.kids[0].k == "mem" and x.kids[0].field == "ev_callback":
+                isnull = strip_casts(x.kids[1]).v == 0
+                if token_set != isnull:
+                    return st | {"token"}
+            if x.k == "call" and x.callee == action:
+                return st | {"act"}
+            return st
+        IN, OUT, T = flow.forward_paths(fn, frozenset(), transfer)
+        n += 1
+        chk.instance(rule)
+        bad = False
+        seen_token = False
+        for b, kind in flow.exits(fn):
+            if kind != "return" or b.id not in OUT:
+                continue
+            for ps in OUT[b.id]:
+                if "token" in ps:
+                    seen_token = True
+                    if "act" not in ps:
+                        bad = True
+        if not seen_token:
+            raise AnalysisBroken("%s: no path %s fiber->ev_callback" % (fname, "installs" if token_set else "clears"))
+        if bad:
+            chk.violation(rule, "ev.c", fname, action, fn.loc,
+                          "%s can %s fiber->ev_callback without calling %s on that path: registrations and stream roots get out of "
+                          "step (a stream with two waiters loses its only root when the first one finishes)" % (
+                              fname, "install" if token_set else "clear", action))
+        else:
+            chk.ok(rule, "%s: %s on every path that %s the callback" % (fname, action, "installs" if token_set else "clears"))
+    chk.floor(rule, 2, n)
+
+
 def run(chk):
     prog = Program.load("default")
     _pin_rule(chk, prog)
     _pendroot_rule(chk, prog)
+    _asyncroot_rule(chk, prog)
     from rules import c20_fd
     c20_fd.run(chk, prog)
     _pending_rule(chk, prog)
